@@ -107,6 +107,16 @@ func (q *UnitType) Modality() Modality {
 	return q.Mode
 }
 
+// Adds brackets around the left operand of a binary type when omitting them would change the parsed type
+// (the binary type operators and the shifts are right-associative and share one precedence level)
+func stringifyLeftOperand(t SessionType, s string) string {
+	switch t.(type) {
+	case *SendType, *ReceiveType, *UpType, *DownType:
+		return "(" + s + ")"
+	}
+	return s
+}
+
 // Send: A * B
 type SendType struct {
 	Left  SessionType
@@ -125,7 +135,7 @@ func NewSendType(left, right SessionType, mode Modality) *SendType {
 func (q *SendType) String() string {
 	var buffer bytes.Buffer
 	// buffer.WriteString("(")
-	buffer.WriteString(q.Left.String())
+	buffer.WriteString(stringifyLeftOperand(q.Left, q.Left.String()))
 	buffer.WriteString(" * ")
 	buffer.WriteString(q.Right.String())
 	// buffer.WriteString(")")
@@ -175,7 +185,7 @@ func NewReceiveType(left, right SessionType, mode Modality) *ReceiveType {
 func (q *ReceiveType) String() string {
 	var buffer bytes.Buffer
 	// buffer.WriteString("(")
-	buffer.WriteString(q.Left.String())
+	buffer.WriteString(stringifyLeftOperand(q.Left, q.Left.String()))
 	buffer.WriteString(" -* ")
 	buffer.WriteString(q.Right.String())
 	// buffer.WriteString(")")
